@@ -1245,9 +1245,10 @@ Proof. vm_compute. repeat split; reflexivity. Qed.
 Lemma spawn_facts_wf_sound f : spawn_facts_wf f = true ->
   sf_fixed_names f = [E_API_KEY; E_OPENAI; E_OPENROUTER]
   /\ sf_names_fresh f = true /\ sf_registry_grows_only f = true /\ sf_load_registers f = true /\ sf_loaders_found f = true
-  /\ 1 <= sf_spawn_sites f /\ sf_spawn_sites f = sf_spawn_sites_stripping f.
+  /\ 1 <= sf_spawn_sites f /\ sf_spawn_sites f = sf_spawn_sites_stripping f /\ sf_unlisted_key_vars f = 0.
 Proof.
   unfold spawn_facts_wf. intros H.
+  apply andb_true_iff in H; destruct H as [H G8]. apply N.eqb_eq in G8.
   apply andb_true_iff in H; destruct H as [H G7].
   apply andb_true_iff in H; destruct H as [H G6].
   apply andb_true_iff in H; destruct H as [H G5].
